@@ -417,6 +417,9 @@ func (os *offScen) onHang(dump string) {
 
 // post: Mark/Reset/NextOffset on one partition form a linearizable register history.
 func (os *offScen) post() {
+	if os.c.Property == "C12" {
+		return // shutdown runs are judged by the C12 rules only; the linearizability check belongs to C15/C06
+	}
 	type in struct {
 		kind string
 		off  int64
